@@ -51,6 +51,7 @@ impl Shrinker {
             self.pass_simplify_spelling(&mut best, &mut bf);
             self.pass_operands(&mut best, &mut bf);
             self.pass_images(&mut best, &mut bf);
+            self.pass_matdot(&mut best, &mut bf);
             if best == before || self.evals >= self.budget {
                 break;
             }
@@ -265,6 +266,13 @@ impl Shrinker {
                         *p = new;
                     }
                 }
+                Ev::MatDot { a, b, .. } => {
+                    for o in a.iter_mut().chain(b.iter_mut()) {
+                        if *o == old {
+                            *o = new;
+                        }
+                    }
+                }
                 _ => {}
             }
         }
@@ -277,6 +285,10 @@ impl Shrinker {
             match e {
                 Ev::Acc(a) => v.extend(&a.ops),
                 Ev::Load(p, _) => v.push(*p),
+                Ev::MatDot { a, b, .. } => {
+                    v.extend(a);
+                    v.extend(b);
+                }
                 _ => {}
             }
         }
@@ -325,6 +337,57 @@ impl Shrinker {
                 let c = Self::subst(best, cur, t);
                 if self.accept(c, best, bf) {
                     cur = t;
+                }
+            }
+        }
+    }
+
+    /// Shrink a matrix-product event: one row × one column, then fewer inner terms.
+    fn pass_matdot(&mut self, best: &mut Case, bf: &mut Failure) {
+        for i in 0..best.events.len() {
+            if i >= best.events.len() {
+                break;
+            }
+            let (r, k, c, a, b) = match &best.events[i] {
+                Ev::MatDot { r, k, c, a, b } => (*r, *k, *c, a.clone(), b.clone()),
+                _ => continue,
+            };
+            if r > 1 || c > 1 {
+                'outer: for ri in 0..r {
+                    for cj in 0..c {
+                        let na: Vec<u32> = a[ri * k..(ri + 1) * k].to_vec();
+                        let nb: Vec<u32> = (0..k).map(|l| b[l * c + cj]).collect();
+                        let mut cand = best.clone();
+                        cand.events[i] = Ev::MatDot { r: 1, k, c: 1, a: na, b: nb };
+                        if self.accept(cand, best, bf) {
+                            break 'outer;
+                        }
+                    }
+                }
+            }
+            if i >= best.events.len() {
+                break;
+            }
+            if let Ev::MatDot { r: 1, k, c: 1, a, b } = best.events[i].clone() {
+                let (mut k, mut a, mut b) = (k, a, b);
+                let mut l = 0;
+                while k > 1 && l < k {
+                    let mut na = a.clone();
+                    let mut nb = b.clone();
+                    na.remove(l);
+                    nb.remove(l);
+                    let mut cand = best.clone();
+                    cand.events[i] = Ev::MatDot { r: 1, k: k - 1, c: 1, a: na.clone(), b: nb.clone() };
+                    if self.accept(cand, best, bf) {
+                        k -= 1;
+                        a = na;
+                        b = nb;
+                    } else {
+                        l += 1;
+                    }
+                    if i >= best.events.len() {
+                        return;
+                    }
                 }
             }
         }
